@@ -1,6 +1,7 @@
 // Command lockyield writes a copy of a goja source tree in which every statement `x.Lock()` / `x.RLock()` is preceded by
-// a call to verifyield.Yield() and followed by Acquired(), and every release is followed by Released() (a new leaf package of
-// the copy holding `var Hook func(kind int)`). The copy is semantically the
+// a call to verifyield.Yield() and followed by Acquired(), every release is followed by Released(), every statement that
+// contains an atomic store / swap / compare-and-swap / add is preceded by Yield(), and every runtime.Gosched() by Spin()
+// (a new leaf package of the copy holding `var Hook func(kind int)`). The copy is semantically the
 // same program (Yield is a no-op unless a simulator sets the hook); in the simulator the hook is a scheduling point, so
 // that the seeded scheduler can also interleave goroutines BETWEEN two critical sections of one operation (check-then-act
 // sequences over a shared Program), which instruction-granular scheduling alone never splits.
@@ -18,6 +19,7 @@ import (
 	"io/fs"
 	"os"
 	"path/filepath"
+	"reflect"
 	"strconv"
 	"strings"
 )
@@ -25,8 +27,9 @@ import (
 const yieldPkg = `// Package verifyield exists only in instrumented scratch copies made by /verif/sim/cmd/lockyield.
 package verifyield
 
-// Hook, when set, is called around every lock operation of the instrumented tree:
-// 0 before an acquisition, 1 after it, 2 after a release.
+// Hook, when set, is called around every synchronisation operation of the instrumented tree:
+// 0 before a lock acquisition or an atomic read-modify-write/store, 1 after an acquisition, 2 after a release,
+// 3 at a runtime.Gosched() (the caller is waiting for another goroutine to make progress).
 var Hook func(kind int)
 
 func Yield() {
@@ -44,6 +47,12 @@ func Acquired() {
 func Released() {
 	if h := Hook; h != nil {
 		h(2)
+	}
+}
+
+func Spin() {
+	if h := Hook; h != nil {
+		h(3)
 	}
 }
 `
@@ -67,6 +76,84 @@ func lockOp(e ast.Expr) int {
 	return 0
 }
 
+// isAtomicMutation: atomic.StoreX/SwapX/CompareAndSwapX/AddX/AndX/OrX(...) of package sync/atomic, or a method call
+// x.Store(..)/x.Swap(..)/x.CompareAndSwap(..) (the typed atomics; by name only, a needless yield elsewhere is harmless).
+func isAtomicMutation(call *ast.CallExpr) bool {
+	sel, ok := call.Fun.(*ast.SelectorExpr)
+	if !ok {
+		return false
+	}
+	n := sel.Sel.Name
+	if id, ok := sel.X.(*ast.Ident); ok && id.Name == "atomic" {
+		for _, p := range []string{"Store", "Swap", "CompareAndSwap", "Add", "And", "Or"} {
+			if strings.HasPrefix(n, p) {
+				return true
+			}
+		}
+		return false
+	}
+	return n == "Store" || n == "Swap" || n == "CompareAndSwap"
+}
+
+func isGosched(call *ast.CallExpr) bool {
+	sel, ok := call.Fun.(*ast.SelectorExpr)
+	if !ok || sel.Sel.Name != "Gosched" {
+		return false
+	}
+	id, ok := sel.X.(*ast.Ident)
+	return ok && id.Name == "runtime"
+}
+
+// containsCall reports whether the parts of statement s that are evaluated as part of s itself (not its nested
+// blocks, which are instrumented on their own, and not function literals) contain a call satisfying pred.
+func containsCall(s ast.Stmt, pred func(*ast.CallExpr) bool) bool {
+	var parts []ast.Node
+	switch x := s.(type) {
+	case *ast.IfStmt:
+		parts = []ast.Node{x.Init, x.Cond}
+	case *ast.ForStmt:
+		parts = []ast.Node{x.Init, x.Cond, x.Post}
+	case *ast.SwitchStmt:
+		parts = []ast.Node{x.Init, x.Tag}
+	case *ast.TypeSwitchStmt:
+		parts = []ast.Node{x.Init, x.Assign}
+	case *ast.RangeStmt:
+		parts = []ast.Node{x.X}
+	case *ast.ExprStmt, *ast.AssignStmt, *ast.ReturnStmt, *ast.IncDecStmt, *ast.SendStmt, *ast.DeclStmt:
+		parts = []ast.Node{x}
+	default:
+		return false
+	}
+	found := false
+	for _, p := range parts {
+		if p == nil || reflect.ValueOf(p).IsNil() {
+			continue
+		}
+		ast.Inspect(p, func(n ast.Node) bool {
+			switch c := n.(type) {
+			case *ast.FuncLit, *ast.BlockStmt:
+				return false
+			case *ast.CallExpr:
+				if pred(c) {
+					found = true
+				}
+			}
+			return !found
+		})
+	}
+	return found
+}
+
+// isOnceDo: x.Do(f) with one argument (sync.Once; by name only, treating some other Do as a critical section is harmless).
+func isOnceDo(e ast.Expr) bool {
+	call, ok := e.(*ast.CallExpr)
+	if !ok || len(call.Args) != 1 {
+		return false
+	}
+	sel, ok := call.Fun.(*ast.SelectorExpr)
+	return ok && sel.Sel.Name == "Do"
+}
+
 func hookCall(name string) *ast.CallExpr {
 	return &ast.CallExpr{Fun: &ast.SelectorExpr{X: ast.NewIdent("verifyield"), Sel: ast.NewIdent(name)}}
 }
@@ -78,6 +165,13 @@ func rewriteList(list []ast.Stmt, n *int) []ast.Stmt {
 	for _, s := range list {
 		switch x := s.(type) {
 		case *ast.ExprStmt:
+			if isOnceDo(x.X) {
+				// sync.Once.Do holds the Once's own mutex while the function runs: a region in which the goroutine must
+				// not be descheduled (another one calling Do would block for real)
+				out = append(out, &ast.ExprStmt{X: hookCall("Yield")}, &ast.ExprStmt{X: hookCall("Acquired")}, s, &ast.ExprStmt{X: hookCall("Released")})
+				*n++
+				continue
+			}
 			switch lockOp(x.X) {
 			case 1:
 				out = append(out, &ast.ExprStmt{X: hookCall("Yield")}, s, &ast.ExprStmt{X: hookCall("Acquired")})
@@ -94,6 +188,13 @@ func rewriteList(list []ast.Stmt, n *int) []ast.Stmt {
 				*n++
 				continue
 			}
+		}
+		if containsCall(s, isGosched) {
+			out = append(out, &ast.ExprStmt{X: hookCall("Spin")})
+			*n++
+		} else if containsCall(s, isAtomicMutation) {
+			out = append(out, &ast.ExprStmt{X: hookCall("Yield")})
+			*n++
 		}
 		out = append(out, s)
 	}
@@ -197,5 +298,5 @@ func main() {
 		fmt.Fprintln(os.Stderr, "lockyield:", err)
 		os.Exit(2)
 	}
-	fmt.Printf("lockyield: %d lock operations in %d files instrumented\n", total, files)
+	fmt.Printf("lockyield: %d synchronisation operations in %d files instrumented\n", total, files)
 }
